@@ -157,19 +157,42 @@ def k_stamp_history(ctx, seed):
     case = {"k": "stamp_history", "seed": seed}
     ctx.case("stamp_history", seed, sample=case)
     d, m = r.choice((0, 4382, 4383, r.getrandbits(16), r.randrange(60000))), r.choice((0, 1, MS - 1, r.randrange(MS)))
-    t = T(d, m) if r.random() < 0.5 else T.unpack(R.encode(d, m))
-    trail = []
+    start = r.choice(("ctor", "ctor", "unpack", "unpack", "empty_no_views", "ctor_no_views", "from_datetime_sub_ms"))
+    forced = None
+    if start == "ctor":
+        t = T(d, m)
+    elif start == "unpack":
+        t = T.unpack(R.encode(d, m))
+    else:
+        # holders whose derived views are not (or not exactly) those of the pair they hold: the documented cheap way to get an
+        # object to decode into.  The first operation on them is a decode - of the pair they already hold, every other time.
+        if start == "empty_no_views":
+            d, m = 0, 0
+            t = T.empty(False)
+        elif start == "ctor_no_views":
+            t = T(d, m, init_dt_unix_stamp=False)
+        else:
+            t = T.from_datetime(R.instant(d, m) + dt.timedelta(microseconds=r.randrange(1, 1000)))
+        forced = r.choice(("read_from_raw_same_value", "read_from_raw"))
+    trail = [start]
+    ctx.table("stamp_history_starts", start)
     for step in range(hist_len(r, 2, 9)):
-        op = r.choice(("pack", "read_from_raw", "read_from_raw_same_day", "add", "views", "pack"))
+        op = r.choice(("pack", "read_from_raw", "read_from_raw_same_day", "read_from_raw_same_value", "add", "add", "views", "pack"))
+        if forced:
+            op, forced = forced, None
         trail.append(op)
-        if op == "read_from_raw_same_day":
+        if op == "read_from_raw_same_value":
+            t.read_from_raw(R.encode(d, m) + r.randbytes(r.choice((0, 0, 2))))
+        elif op == "read_from_raw_same_day":
             m = r.randrange(MS)
             t.read_from_raw(R.encode(d, m))
         elif op == "read_from_raw":
             d, m = r.getrandbits(16), r.randrange(MS)
             t.read_from_raw(R.encode(d, m) + r.randbytes(r.choice((0, 0, 3))))
         elif op == "add":
-            td = dt.timedelta(days=r.choice((0, 0, 1, 30)), seconds=r.randrange(86400), microseconds=1000 * r.randrange(1000))
+            # sub-millisecond parts are dropped by every single addition (integer arithmetic on milliseconds): nothing is carried over
+            us = 1000 * r.randrange(1000) + (r.choice((0, 1, 400, 500, 600, 999, r.randrange(1000))) if r.random() < 0.6 else 0)
+            td = dt.timedelta(days=r.choice((0, 0, 1, 30)), seconds=r.choice((0, 0, r.randrange(86400))), microseconds=us)
             w = R.add(d, m, td)
             if w is None:
                 continue
